@@ -36,3 +36,6 @@ def run(ctx, rep):
     more5.rule_supno_done(mod, rep)
     from ..rules import more6
     more6.rule_fb_fresh(mod, rep)
+    from ..rules import more6 as _m6c
+    _m6c.rule_prune_split(mod, rep)
+    _m6c.rule_dfs_busy(mod, rep)
